@@ -22,6 +22,8 @@ INTERESTING_DAYS = [19700101, 19991231, 20000228, 20000229, 20000301, 20010228, 
 HOURS = [0, 6, 12, 18, 23]
 LEADTIMES = [0, 1, 1.5, 3, 6, 12, 23, 24, 25, 36, 47.5, 48, 72, 240]
 LOC_IDS = [0, 1, 2, 3, 5, 7, 10, 42, 100, 1000, 99999]
+TH_POOL = [-2.0, -0.5, 0.0, 0.25, 1.0, 2.5, 5.0]
+Q_POOL = [0.0, 0.1, 0.25, 0.5, 0.75, 0.9, 1.0]
 
 
 def time_pool(boundary_heavy=True, half_hours=False):
@@ -96,7 +98,7 @@ MASK_MODES_NOALL = st.sampled_from(["dense", "dense", "dense", "none", "one", "s
 @st.composite
 def dataset(draw, max_inputs=4, min_inputs=1, clim="maybe", flavor="det", core_max=3, extra_max=2,
             allow_drop=True, allow_obsless=True, boundary_heavy=True, ordered_dims=False, max_members=4,
-            var_x=False, allow_all_missing=True, half_hours=False):
+            var_x=False, allow_all_missing=True, half_hours=False, other_pool=("temp", "wind", "zscore"), per_input_layout=True):
     """flavor: 'det' (obs, fcst) | 'prob' (+cdf, quantiles, pit) | 'ens' (+ensemble) | 'full' (all) | 'mix' """
     if flavor == "mix":
         flavor = draw(st.sampled_from(["det", "det", "prob", "ens", "full"]))
@@ -127,11 +129,11 @@ def dataset(draw, max_inputs=4, min_inputs=1, clim="maybe", flavor="det", core_m
     thresholds = quantiles = []
     members = 0
     if flavor in ("prob", "full"):
-        thresholds = sorted(draw(st.lists(st.sampled_from([-2.0, -0.5, 0.0, 0.25, 1.0, 2.5, 5.0]), min_size=1, max_size=3, unique=True)))
-        quantiles = sorted(draw(st.lists(st.sampled_from([0.0, 0.1, 0.25, 0.5, 0.75, 0.9, 1.0]), min_size=1, max_size=3, unique=True)))
+        thresholds = sorted(draw(st.lists(st.sampled_from(TH_POOL), min_size=1, max_size=3, unique=True)))
+        quantiles = sorted(draw(st.lists(st.sampled_from(Q_POOL), min_size=1, max_size=3, unique=True)))
     if flavor in ("ens", "full"):
         members = draw(st.integers(1, max_members))
-    other_names = draw(st.lists(st.sampled_from(["temp", "wind", "zscore"]), max_size=1, unique=True)) if flavor in ("det", "full") else []
+    other_names = draw(st.lists(st.sampled_from(list(other_pool)), max_size=1 if len(other_pool) <= 3 else 2, unique=True)) if flavor in ("det", "full") else []
 
     def one_input(name, is_clim=False, force_obs=False):
         def pick(core_n, extra_n):
@@ -157,11 +159,14 @@ def dataset(draw, max_inputs=4, min_inputs=1, clim="maybe", flavor="det", core_m
             d["obs"] = None
         d["fcst"] = masked(draw, shape, val(), draw(modes))
         if thresholds:
-            d["thresholds"] = list(thresholds)
-            K = len(thresholds)
-            # non-decreasing cumulative probabilities on a dyadic grid, including exactly 0 and 1
+            # own layout: the common thresholds plus own extras, in the file's own order
+            extras = [t for t in TH_POOL if t not in thresholds]
+            own = list(thresholds) + [t for t in extras if per_input_layout and draw(st.sampled_from([False, False, True]))]
+            own = list(draw(st.permutations(own))) if per_input_layout else own
+            d["thresholds"] = own
+            K = len(own)
+            rank = dict((t, r) for r, t in enumerate(sorted(own)))
             raw = masked(draw, shape, st.lists(st.integers(0, 8), min_size=K, max_size=K), draw(modes))
-            d["cdf"] = [[[None if cell is None else None for cell in row] for row in pl] for pl in raw]
             cdf = []
             for a in range(shape[0]):
                 pa = []
@@ -172,14 +177,19 @@ def dataset(draw, max_inputs=4, min_inputs=1, clim="maybe", flavor="det", core_m
                         if cell is None:
                             pb.append([None] * K)
                         else:
-                            pb.append([v / 8.0 for v in sorted(cell)])
+                            sv = [v / 8.0 for v in sorted(cell)]     # non-decreasing in the threshold
+                            pb.append([sv[rank[t]] for t in own])
                     pa.append(pb)
                 cdf.append(pa)
             d["cdf"] = cdf
             d["pit"] = masked(draw, shape, st.integers(0, 16).map(lambda i: i / 16.0), draw(modes))
         if quantiles:
-            d["quantiles"] = list(quantiles)
-            Q = len(quantiles)
+            extras = [q for q in Q_POOL if q not in quantiles]
+            own = list(quantiles) + [q for q in extras if per_input_layout and draw(st.sampled_from([False, False, True]))]
+            own = list(draw(st.permutations(own))) if per_input_layout else own
+            d["quantiles"] = own
+            Q = len(own)
+            rank = dict((q, r) for r, q in enumerate(sorted(own)))
             raw = masked(draw, shape, st.lists(st.integers(-40, 40), min_size=Q, max_size=Q), draw(modes))
             qs = []
             for a in range(shape[0]):
@@ -188,7 +198,11 @@ def dataset(draw, max_inputs=4, min_inputs=1, clim="maybe", flavor="det", core_m
                     pb = []
                     for c in range(shape[2]):
                         cell = raw[a][b][c]
-                        pb.append([None] * Q if cell is None else [v / 4.0 for v in sorted(cell)])
+                        if cell is None:
+                            pb.append([None] * Q)
+                        else:
+                            sv = [v / 4.0 for v in sorted(cell)]     # non-decreasing in the level
+                            pb.append([sv[rank[q]] for q in own])
                     pa.append(pb)
                 qs.append(pa)
             d["qs"] = qs
